@@ -100,13 +100,17 @@ pub fn exec(rec: &Value, _st: &mut State) -> Value {
             }
         }
         "mesh" => {
+            // optional power-of-two scale `msc` of the whole problem (mesh, samples, displacement, offset); every length that is
+            // reported is divided by it again, so the judge works in lattice units
+            let ms = (2.0f64).powi(gi_or(rec, "msc", 0) as i32);
             let off = gvi(rec, "off");
-            let o3 = Vector3::new(off[0] as f64, off[1] as f64, off[2] as f64);
-            let verts: Vec<Point3> = gvvi(rec, "vpos").iter().map(|p| Point3::new(p[0] as f64, p[1] as f64, p[2] as f64) + o3).collect();
+            let o3 = Vector3::new(off[0] as f64, off[1] as f64, off[2] as f64) * ms;
+            let verts: Vec<Point3> = gvvi(rec, "vpos").iter().map(|p| Point3::new(p[0] as f64 * ms, p[1] as f64 * ms, p[2] as f64 * ms) + o3).collect();
             let faces: Vec<[u32; 3]> = gvvi(rec, "faces").iter().map(|f| [f[0] as u32, f[1] as u32, f[2] as u32]).collect();
             let mesh = Mesh::new(verts, faces, false);
-            let d = disp3(&rec["D"]);
-            let samples: Vec<Point3> = gvvi(rec, "samples").iter().map(|p| Point3::new(p[0] as f64 / 2.0, p[1] as f64 / 2.0, p[2] as f64 / 2.0) + o3).collect();
+            let mut d = disp3(&rec["D"]);
+            d.translation.vector *= ms;
+            let samples: Vec<Point3> = gvvi(rec, "samples").iter().map(|p| Point3::new(p[0] as f64 / 2.0 * ms, p[1] as f64 / 2.0 * ms, p[2] as f64 / 2.0 * ms) + o3).collect();
             let points: Vec<Point3> = samples.iter().map(|s| Point3::from(o3) + (d * Point3::from(s.coords - o3)).coords).collect();
             let plane = gs(rec, "mode") == "plane";
             // optional large pre-rotation S about the part (axis swaps, incl. pitch of -90 / +90 degrees): the measured points
@@ -126,7 +130,7 @@ pub fn exec(rec: &Value, _st: &mut State) -> Value {
             let points: Vec<Point3> = match &swap { None => points, Some(sw) => { let inv = sw.inverse(); points.iter().map(|p| inv * p).collect() } };
             let guess = swap.unwrap_or(Iso3::identity());
             let derived = |t: &Iso3| -> Vec<f64> { points.iter().map(|p| { let m = t * p; let sp = mesh.surf_closest_to(&m);
-                if plane { sp.scalar_projection(&m).abs() } else { (m - sp.point).norm() } }).collect() };
+                (if plane { sp.scalar_projection(&m).abs() } else { (m - sp.point).norm() }) / ms }).collect() };
             let r0 = derived(&guess);
             let _ = engeom::verif_trace::take();
             let result = points_to_mesh(&points, &mesh, &guess, if plane { DistMode::ToPlane } else { DistMode::ToPoint });
@@ -142,7 +146,7 @@ pub fn exec(rec: &Value, _st: &mut State) -> Value {
                     let mut prm = RcParams3::from_initial(&guess, &mp);
                     prm.set(&Vector6::new(x[0], x[1], x[2], x[3], x[4], x[5]));
                     let dv = derived(prm.transform());
-                    let r = floats(&v["r"]);
+                    let r: Vec<f64> = floats(&v["r"]).iter().map(|x| x / ms).collect();
                     evs.push(json!({"ev": "res", "x": xq, "r": q.qv(&r, QR), "d": q.qv(&dv, QR)}));
                 } else {
                     evs.push(json!({"ev": v["ev"], "x": xq, "r": [], "d": []}));
@@ -153,12 +157,12 @@ pub fn exec(rec: &Value, _st: &mut State) -> Value {
                 Err(_) => json!({"ok": false, "nevents": events.len(), "events": evs, "hook_ok": hook_ok, "finite": q.finite}),
                 Ok(al) => {
                     let t = *al.transform();
-                    let moved: Vec<Vec<i64>> = points.iter().map(|p| { let m = t * p; vec![q.q(m.x, QX), q.q(m.y, QX), q.q(m.z, QX)] }).collect();
-                    let rep = al.residuals().to_vec();
+                    let moved: Vec<Vec<i64>> = points.iter().map(|p| { let m = t * p; vec![q.q(m.x / ms, QX), q.q(m.y / ms, QX), q.q(m.z / ms, QX)] }).collect();
+                    let rep: Vec<f64> = al.residuals().iter().map(|x| x / ms).collect();
                     let dv = derived(&t);
                     let ssq = |v: &[f64]| v.iter().map(|x| x * x).sum::<f64>();
                     json!({"ok": true, "moved": moved, "rep": q.qv(&rep, QR), "der": q.qv(&dv, QR), "ssq0": q.q(ssq(&r0), QR), "ssq1": q.q(ssq(&rep), QR),
-                           "avg": q.q(al.avg_residual(), QR), "nevents": events.len(), "events": evs, "hook_ok": hook_ok, "finite": q.finite})
+                           "avg": q.q(al.avg_residual() / ms, QR), "nevents": events.len(), "events": evs, "hook_ok": hook_ok, "finite": q.finite})
                 }
             }
         }
